@@ -9,6 +9,29 @@ C18_ASSUME = ["readPackageInfo / fetchAndCachePackages replaced under gosym by a
               "local directory imports only (no git/https fetching)"]
 
 
+C18_NS_SITES = ("import-is-a-namespace-reference", "reference-not-duplicated", "reference-is-an-import", "one-namespace-object-per-package",
+                "flattened-each-namespace-once", "flattened-imports-first", "child-references-each-once", "child-references-imports-first")
+C18_TERM_DESC = (".  LoadPackage runs under verifBounded: exhausting the call-depth or instruction bound on these finite graphs violates terminates-without-panic "
+                 "(natively: the case is first run in a child process under a wall-clock limit)")
+C18_NS_PART = (G, "gosym_part", dict(name="c18_namespaces", entry="internal/cmd.VerifC18Namespaces", args_quick=(4,), args_thorough=(5,),
+                               extra_quick=("-max-paths", "100000"), extra_thorough=("-max-paths", "2000000"),
+                               required_sites=("terminates-without-panic", "acyclic-accepted") + C18_NS_SITES,
+                               assumptions=C18_ASSUME + ["dsl.ParsePackageContents replaced under gosym by an empty namespace carrying the package's name (natively: real, on directories without model files)"],
+                               desc="every acyclic import graph over n packages (every import-list order, one optional repeated import), real LoadPackage then the real parsePackageNamespaces / "
+                                    "flattenNamespaces / Namespace.GetAllChildReferences: the namespace graph mirrors the import graph (every import of P is a reference of ns(P), no spurious or "
+                                    "lost references, one namespace object per package); flattened and child-reference lists contain each namespace exactly once with imports before importers"))
+C18_GRAPH_PART = (G, "gosym_part", dict(name="c18_graph", entry="pkg/packaging.VerifC18Graph", args_quick=(3, 2), args_thorough=(3, 3),
+                               extra_quick=("-max-paths", "100000"), extra_thorough=("-max-paths", "2000000"),
+                               required_sites=("terminates-without-panic", "cycle-or-conflict-rejected", "acyclic-accepted", "each-reachable-once", "shared-package-loaded-once"),
+                               assumptions=C18_ASSUME,
+                               desc="LoadPackage on every import multigraph over n packages (args: n, max out-degree; every list order, repeated and self imports) with symbolic namespaces: "
+                                    "terminates; cycle or namespace conflict among reachable packages => error; otherwise success, each reachable package once, every import resolved" + C18_TERM_DESC))
+C18_DAG_PART = (G, "gosym_part", dict(name="c18_dag", entry="pkg/packaging.VerifC18Dag", args_quick=(4,), args_thorough=(5,),
+                               extra_quick=("-max-paths", "200000"), extra_thorough=("-max-paths", "4000000"),
+                               required_sites=("terminates-without-panic", "cycle-or-conflict-rejected", "acyclic-accepted", "shared-package-loaded-once"), assumptions=C18_ASSUME,
+                               desc="DAGs over n packages in every import-list order, one optional arbitrary extra edge listed first or last and a symbolic namespace on the last package" + C18_TERM_DESC))
+
+
 def c18_key(aid, events, outs):
     m = {e["name"]: e["value"] for e in events}
     if aid == "too-deep-rejected" and m.get("shortcut") == "1" and m.get("shortcut-first") == "1":
@@ -29,6 +52,13 @@ def c10_key(aid, events, outs):
         if c in p:
             cls = c
     return "c10:%s:%s" % (aid, cls if aid == "validate-does-not-panic" else "")
+
+
+def c11_versions_key(aid, events, outs):
+    o = {x["key"]: x["val"] for x in outs}
+    modes = [e["value"] for e in events if "_mode_" in e["name"]]
+    bad = ["%d:%s" % (i, m) for i, m in enumerate(modes) if m not in ("same", "compat", "partial")]
+    return "c11:%s:versions=%d:bad=%s:duplicate-labels=%s" % (aid, len(modes), "+".join(bad) or "none", o.get("duplicate-labels", "?"))
 
 
 def c11_key(aid, events, outs):
@@ -83,6 +113,9 @@ C09_ASSUME = ["models are built at the level dsl.Validate receives them (YAML te
               "base model: harness baseModel (enum, record, alias, generic record + instantiation, protocol) in a main namespace and in an imported namespace",
               "one violation per run; names drawn from small finite domains decided by the solver"]
 
+C09_GENERIC_ASSUME = C09_ASSUME + ["generic carriers: harness zz_c09_generic.go (Lib.Box<T>, Lib.Seq<T> = T*, Lib.Two<A,B>, Lib.Choice<T> = [string, T], local Pair<A,B>, "
+                                   "local LocalBox<T> = Lib.Box<T>, two-level nests, vector argument); namespaces Lib <- Dep <- Main"]
+
 C10_ASSUME = ["arbitrary bytes / YAML text are outside this technique (yaml.v3, participle); models are arbitrary at the AST level dsl.Validate receives",
               "expression vocabulary: harness zz_c10.go (depth 1: arguments are leaves)"]
 
@@ -115,9 +148,34 @@ C10_FORMS = {
                                desc="dsl.Validate on a record with every kind of field and one computed field whose expression is: switch over optional/union/scalar targets with 1-2 cases and every pattern kind; no panic, errors carry a file position")),
 }
 
+C10_SHAPES_ASSUME = ["arbitrary bytes / YAML text are outside this technique (yaml.v3, participle); type shapes are arbitrary at the AST level dsl.Validate receives, restricted to "
+                     "what yaml.go (UnmarshalTypeYAML, Unmarshal{Vector,Array,Map,Stream,Union}YAML, UnmarshalGenericNode) and convertType can produce",
+                     "shape vocabulary: harness zz_c10_shapes.go, one family per part; array / vector lengths absent, 0 or 3; dimension names, tags and type names from small finite sets "
+                     "(type names decided by the solver); host model: enum, record, aliases, generic record, generic alias, protocol"]
+C10_SHAPE_FAMILIES = ["arrays of rank 0-2 (3) whose dimensions independently have / lack a length (0 or 3) and a name (incl. empty, duplicate, badly cased), `dimensions` absent or empty",
+                      "case lists (empty, [null], [T], [null,T], [T,U], [null,T,T'], [T,null], [null,null]) under no dimensionality / vector / fixed vector of length 0 / 3 / map / array / stream",
+                      "simple type names that are unknown, primitives, records, enums, generics, type parameters, protocols, qualified, with 0-2 type arguments incl. unresolvable, compound and ill-formed arguments (null type arguments excluded: reported defect)",
+                      "maps whose key is a record / enum / alias / type parameter / unknown / protocol / generic instantiation / vector / optional / union / empty union / map, over 8 value case lists",
+                      "generalized types (7 dimensionalities x 3 case lists) nested directly as optional inner, union case, vector / array element or map key of another generalized type",
+                      "`!union` maps with 0-3 explicitly tagged cases (null types, duplicate types, unknown types) and tags from {a, b, A, empty} (so duplicate, empty, badly cased), plain or as vector element"]
+C10_SHAPES = [(G, "gosym_part", dict(name="c10_type_shapes", entry="internal/zzverif.C10TypeShapes", args_quick=(-1, 0, 0), args_thorough=(-1, 1, 1), key_fn=c10_key,
+                                     required_sites=("validate-does-not-panic", "error-is-located"), assumptions=C10_SHAPES_ASSUME,
+                                     desc="dsl.Validate on a host model with one producible, possibly rule-violating type shape at a symbolic position (record field, union case, vector element, "
+                                          "map value, alias target, protocol step, generic argument, field / alias target of a generic definition; thorough: + optional inner, stream item, "
+                                          "map key, enum base, array element): no panic, and a returned error names the file.  Shape families: " + "; ".join(
+                                              "(%d) %s" % (i, t) for i, t in enumerate(C10_SHAPE_FAMILIES))))]
+
+
 def c05_key(aid, events, outs):
     o = {x["key"]: x["val"] for x in outs}
     return "c05:%s:%s->%s" % (aid, o.get("from", "?"), o.get("to", "?"))
+
+
+def c05_nested_key(aid, events, outs):
+    o = {x["key"]: x["val"] for x in outs}
+    if "chain" in o:
+        return "c05:%s:wrappers=%s" % (aid, o.get("chain") or "none")
+    return "c05:%s:%s" % (aid, o.get("change", "?"))
 
 
 C05_ASSUME = ["the emitted guard text is read back through the four statement forms writeTypeConversion emits today (`src > limits<T>::max()`, `src < limits<T>::lowest()`, `src < 0`, throw)",
@@ -127,6 +185,8 @@ def c06_key(aid, events, outs):
     o = {x["key"]: x["val"] for x in outs}
     if o.get("container") in ("1", "2") and aid in ("compatible-change-accepted", "partial-change-accepted"):
         return "c06:change-to-record-used-as-map-value-or-array-element-rejected"
+    if o.get("closed-pair") == "true":
+        return "c06:type-arguments-not-compared-through-differently-named-closed-aliases"
     return "c06:%s:%s" % (aid, o.get("edit", "?"))
 
 
@@ -154,6 +214,64 @@ C04_DETERMINES_PART = (G, "gosym_part", dict(name="c04_determines", entry="inter
                                desc="one wire-affecting edit (symbolic new primitive / key / enum base / vector length / array dimension, or unnamed fixed-array dimension, field type of an imported record sharing its simple name with a local one, or one of 10 structural edits): "
                                     "schema text differs whenever the edit changes the wire plan, and is identical otherwise"))
 
+# ---- emitted C++ binary protocol methods read back and evaluated (h-cppgen) -------------------
+CPP_PROTO_ASSUME = ["the emitted method bodies are read back into statements (if / switch (version_) with C++ fall-through / element-wise for / simple) by "
+                    "harness/go/internal/zzverif/zz_cppstmt.go; any unrecognised form fails the only-known-statement-forms obligation",
+                    "meaning of the runtime entry points the bodies call (WriteBlock, WriteVector, WriteInteger(0U), ReadBlock, ReadBlocksIntoVector, value (de)serializers via the "
+                    "zz_plan.go head tables) is the documented interpretation at the top of zz_cppstmt.go; the kernels themselves are checked by c01_cc_kernels / c17_cc_blocks",
+                    "value-dependent conversion errors (numeric overflow guards) are documented partial compatibility and are not followed"]
+C01_CPP_PROTO_WRITER = (G, "gosym_part", dict(name="c01_cpp_proto_writer", entry="internal/zzverif.C01CppProto", args_quick=(2, 4, 0), args_thorough=(3, 8, 0),
+                                              extra_thorough=("-max-paths", "400000"),
+                                              required_sites=("only-known-statement-forms", "value-step-writes-one-value", "single-write-is-one-block", "block-length-nonzero",
+                                                              "block-holds-exactly-its-length", "batch-is-a-sequence-of-blocks", "batch-writes-every-item-once",
+                                                              "end-writes-one-length", "end-writes-zero-length"),
+                                              assumptions=CPP_PROTO_ASSUME,
+                                              desc="cpp/binary.writeProtocolMethods on a protocol of n steps, each a value or a stream (symbolic) of a symbolic element type (args: n, "
+                                                   "vocabulary size, 0): every emitted writer method evaluated on a batch of symbolic length: value step = one value of Plan(T); each stream "
+                                                   "Write emits zero or more blocks with NON-ZERO length followed by exactly that many items, every item passed exactly once; "
+                                                   "End emits exactly the zero length"))
+C01_CPP_PROTO_READER = (G, "gosym_part", dict(name="c01_cpp_proto_reader", entry="internal/zzverif.C01CppProto", args_quick=(2, 4, 1), args_thorough=(3, 8, 1),
+                                              extra_thorough=("-max-paths", "400000"),
+                                              required_sites=("only-known-statement-forms", "value-step-reads-one-value", "single-read-reports-item-iff-read",
+                                                              "length-consumed-only-when-block-exhausted", "single-read-delivers-one-item", "block-remaining-decremented",
+                                                              "end-of-stream-reads-no-item", "batch-read-is-one-kernel-call", "batch-read-delivers-the-items-read",
+                                                              "batch-read-reports-more-iff-not-ended"),
+                                              assumptions=CPP_PROTO_ASSUME,
+                                              desc="same protocols, every emitted reader method evaluated from a symbolic current_block_remaining_ and a symbolic next block length: "
+                                                   "a single read consumes a length only when the block is exhausted, reports false iff that length is zero, otherwise delivers one item of "
+                                                   "Plan(item); a batch read delivers what ReadBlocksIntoVector read and reports more-may-follow iff the zero length was not consumed"))
+C05_SWITCH_SITES = ("documented-compatible-changes-accepted", "only-known-statement-forms", "version-switch-labels-distinct", "absent-step-writes-nothing")
+C05_SWITCH_DESC = ("real dsl.ValidateEvolution on a current model and m previous versions (args: m, shapes, element families, side) in which a stream / vector / optional step "
+                   "of a number or a record is, per version (symbolic), unchanged with the protocol identical / unchanged next to another changed step / absent / of a different "
+                   "compatible type, with version labels assigned by a symbolic permutation of labels whose lexicographic and numeric orders differ; "
+                   "cpp/binary.writeProtocolMethods output read back: for EVERY label and Current, every %s method routes version_ to a body that %s exactly that "
+                   "version's wire format (oracle: the step looked up by name in that version's own validated model; absent step = nothing, no end-of-stream length)")
+C05_SWITCH_WRITER = (G, "gosym_part", dict(name="c05_version_switch_writer", entry="internal/zzverif.C05VersionSwitch", args_quick=(2, 3, 2, 0), args_thorough=(3, 3, 2, 0),
+                                           extra_thorough=("-max-paths", "400000"),
+                                           required_sites=C05_SWITCH_SITES + ("value-step-writes-one-value", "single-write-is-one-block", "block-length-nonzero",
+                                                                              "batch-writes-every-item-once", "end-writes-zero-length"),
+                                           assumptions=CPP_PROTO_ASSUME, desc=C05_SWITCH_DESC % ("writer (Write, batch Write, End)", "writes")))
+C05_SWITCH_READER = (G, "gosym_part", dict(name="c05_version_switch_reader", entry="internal/zzverif.C05VersionSwitch", args_quick=(2, 2, 2, 1), args_thorough=(3, 3, 2, 1),
+                                           extra_thorough=("-max-paths", "400000"),
+                                           required_sites=("documented-compatible-changes-accepted", "only-known-statement-forms", "absent-step-reads-nothing", "absent-stream-reports-end",
+                                                           "absent-step-yields-default", "value-step-reads-one-value", "single-read-reports-item-iff-read",
+                                                           "single-read-delivers-one-item", "batch-read-delivers-the-items-read", "batch-read-reports-more-iff-not-ended"),
+                                           assumptions=CPP_PROTO_ASSUME + ["between steps current_block_remaining_ is 0 (every earlier stream was read to its zero length)"],
+                                           desc=C05_SWITCH_DESC % ("reader (Read, batch Read)", "reads")))
+
+C20_ASSUME = ["gosym goroutine scheduler: one goroutine runs at a time; switches only at go / channel / select / timer / mutex / atomic / file-system operations and verifYield; "
+              "at most `preemptions` switches away from a goroutine that could continue (blocking switches are free); data races on plain memory between those points are not explored",
+              "time is abstract: an armed debounce timer may fire at any later scheduling point (covers every ratio of debounce delay to regeneration time)",
+              "LoadPackage / ParsePackageContents are replaced under gosym by functions reading the same files of the virtual file system (yaml.v3 is outside the executor); "
+              "updatePackageInfoFromArgs is a no-op (koanf is opaque): effects of the shared koanf instance are outside the claim; JSON output only; one package without imports",
+              "the harness is the file-system notifier: one event per save on Watcher.Events (real fsnotify natively)",
+              "native replay cannot impose a schedule: a slow regeneration is realised by a bulky model (1500 extra records) saved 60 ms before the next save"]
+
+C02_CPP_ENUM_ASSUME = ["the emitted to_json / from_json bodies and symbol table are read back into statements by zz_cppstmt.go / zz_c02_cppenum.go; any unrecognised form fails "
+                       "only-known-statement-forms", "meaning of BaseFlags::HasFlags/UnsetFlags/Value/==/|= and of the nlohmann::json calls is the documented interpretation at the top of "
+                       "zz_c02_cppenum.go (transcribed from tooling/internal/cpp/include/yardl.h.tmpl)", "generated enumerators are named k<PascalCase symbol> (types emitter convention)",
+                       "flag / enum literal values are concrete per path (math/big is modelled for concrete values only); the serialized value v is a symbolic bit-vector"]
+
 PARTS = {
     "C08": [
         (G, "gosym_part", dict(name="c08_python_package", entry="internal/zzverif.C08PythonPackage",
@@ -162,6 +280,22 @@ PARTS = {
                                             "model: harness baseModel in a main namespace (with or without protocols) importing a types-only namespace"],
                                desc="the real python.Generate (types, protocols, binary, ndjson, __init__ writers) on a two-namespace model with symbolic generateNDJson and with/without "
                                     "protocols: completes without panic, and every module imported by a generated __init__.py from its own package was written")),
+        (G, "gosym_part", dict(name="c08_python_imports", entry="internal/zzverif.C08PythonImports",
+                               required_sites=("generation-does-not-panic", "generation-succeeds", "relative-import-resolves", "used-namespace-is-imported",
+                                               "dtype-registered-before-use", "ndjson-written-iff-enabled", "one-package-per-namespace"),
+                               assumptions=["iocommon.CopyEmbeddedStaticFiles replaced by a no-op under gosym: the runtime modules yardl_types/_dtypes/_binary (and _ndjson iff generateNDJson) are taken "
+                                            "to be present next to the top-level package (checked against the real copy in the native replays)",
+                                            "model: Top (with or without protocols) with no imports, or importing Mid -> Base as a chain, or Mid and Base directly in either list order; "
+                                            "Mid has records with Base record / enum / generic-instance / union fields"],
+                               desc="the real python.Generate for every generateNDJson x has-protocols x import-shape combination, emitted Python read back: every relative import of every generated "
+                                    "module (__init__, types, protocols, binary, ndjson of the top-level package and of every sub-package) resolves to a module written in the same run; every "
+                                    "namespace identifier a module uses is imported there (directly or via a star-imported sibling); in every types.py the dtype registrations are "
+                                    "dependencies-first (an eagerly evaluated registration only mentions keys registered by earlier statements)")),
+        (G, "gosym_part", dict(name="c08_child_references", entry="internal/zzverif.C08ChildReferences", args_quick=(4,), args_thorough=(5,),
+                               extra_quick=("-max-paths", "100000"), extra_thorough=("-max-paths", "2000000"),
+                               required_sites=("child-references-each-once", "child-references-only-referenced", "child-references-dependencies-first"),
+                               desc="the real Namespace.GetAllChildReferences on every reference DAG over n namespaces (every list order, one optional repeated reference): each transitively "
+                                    "referenced namespace exactly once, nothing else, every namespace after the namespaces it references (the order the generators emit per-namespace code in)")),
     ],
     "C07": [
         (PYG, "c07_py_protocols", dict()),
@@ -188,6 +322,30 @@ PARTS = {
         (G, "gosym_part", dict(name="c05_int_conversion_write", entry="internal/zzverif.C05IntConversion", args_quick=(1,), args_thorough=(1,), key_fn=c05_key,
                                required_sites=("no-silent-wrap", "no-spurious-overflow-error"), assumptions=C05_ASSUME,
                                desc="same for the write direction (writing a value of the current type to a previous version)")),
+        C05_SWITCH_WRITER,
+        C05_SWITCH_READER,
+        (G, "gosym_part", dict(name="c05_nested_conversion_read", entry="internal/zzverif.C05NestedConversion", args_quick=(0,), args_thorough=(0,), key_fn=c05_nested_key,
+                               required_sites=("nested-integer-change-accepted", "emitted-conversion-understood", "element-wise-data-flow", "one-element-conversion",
+                                               "assigns-static-cast-to-target", "no-silent-wrap", "no-spurious-overflow-error"),
+                               assumptions=C05_ASSUME + ["wrapper chains: none, optional, vector, stream (batched), vector of optional, stream of optional; the emitted statements are read back as a data-flow trace "
+                                                         "(has_value test, resize, element loop, item declaration, guard+throw, static_cast assignment, item store) and compared with the element-wise flow the wrapper chain requires",
+                                                         "not covered: vector of vector / stream of vector (batched), fixed-length vector and optional of vector around a changed element: the emitter "
+                                                         "shadows `i` / `item`, calls resize on std::array / std::optional (reported as suspected C++ well-formedness defects)"],
+                               desc="real compareTypes on wrappers(old int) vs wrappers(new int) for all 72 ordered pairs of integer primitives, then cpp/binary.writeTypeConversion on the resulting change, reading an old stream: "
+                                    "the innermost element conversion reads the element of the source container, throws iff the symbolic 64-bit value does not fit the new element type, else stores static_cast<new> "
+                                    "into the destination container")),
+        (G, "gosym_part", dict(name="c05_nested_conversion_write", entry="internal/zzverif.C05NestedConversion", args_quick=(1,), args_thorough=(1,), key_fn=c05_nested_key,
+                               required_sites=("element-wise-data-flow", "assigns-static-cast-to-target", "no-silent-wrap", "no-spurious-overflow-error"),
+                               assumptions=C05_ASSUME,
+                               desc="same for the write direction (the emitter inverts the change object): the range check for the previous version's narrower element type must be present at the innermost level")),
+        (G, "gosym_part", dict(name="c05_inverse", entry="internal/zzverif.C05Inverse", args_quick=(2,), args_thorough=(3,), key_fn=c05_nested_key,
+                               extra_thorough=("-max-paths", "400000"),
+                               required_sites=("compare-total", "inverse-total", "inverse-swaps-direction-at-every-level", "inverse-is-an-involution", "inverse-equals-reverse-comparison"),
+                               assumptions=["type pairs: 12 leaf changes (none, number->number over 5 numeric primitives, number<->string, complex<->complex, T<->T?, T<->union, T?<->union with null, "
+                                            "union case set changed; matching case at a symbolic position) under <= depth-1 equal wrappers out of optional / vector / fixed vector / map / array / alias (one or both sides) / stream (outermost)",
+                                            "evolution context empty (no named record / enum definitions): TypeChangeDefinitionChanged.Inverse is not reached"],
+                               desc="tc = real compareTypes(new, old): tc.Inverse() swaps (old, new) and takes the opposite kind at every nesting level, tc.Inverse().Inverse() equals tc, and tc.Inverse() equals "
+                                    "compareTypes(old, new) in kind, nested type pairs and case indices wherever both directions are accepted")),
     ],
     "C19": [
         (PYG, "c19_py_computed", dict()),
@@ -198,7 +356,7 @@ PARTS = {
                                desc="real dsl.Validate (resolveComputedFields, GetCommonType, insertConversion) on `a op b` and `b op a` for symbolic numeric primitive types of a, b "
                                     "(13 x 13) and all 5 operators: accept/reject and static type do not depend on operand order; kind/width of the result")),
     ],
-    "C10": [C10_FORMS[f] for f in (0, 1, 3, 4, 5)] + [only_thorough(C10_FORMS[f]) for f in (2, 6)],
+    "C10": [C10_FORMS[f] for f in (0, 1, 3, 4, 5)] + [only_thorough(C10_FORMS[f]) for f in (2, 6)] + C10_SHAPES + [C18_GRAPH_PART],  # C18_GRAPH_PART: no hang / panic of the package loader for any import graph
     "C09": [
         (G, "gosym_part", dict(name="c09_base", entry="internal/zzverif.C09Base", required_sites=("base-accepted",), assumptions=C09_ASSUME,
                                desc="the unmodified two-namespace base model validates (guards against an over-rejecting harness)")),
@@ -211,6 +369,17 @@ PARTS = {
                                required_sites=("violation-rejected", "error-names-offending-file", "no-panic"), assumptions=C09_ASSUME,
                                desc="21 definition-level rule violations (duplicate/badly-cased/reserved names, enum symbols/values/base/range, generics on enum/protocol, unused type "
                                     "parameter, reference cycles, duplicate computed field) x {main, imported namespace}")),
+        (G, "gosym_part", dict(name="c09_generic_base", entry="internal/zzverif.C09GenericBase", required_sites=("base-accepted",), assumptions=C09_GENERIC_ASSUME,
+                               desc="the three-namespace base (Lib of generics <- Dep <- Main) with all 10 generic carriers instantiated on a valid argument validates")),
+        (G, "gosym_part", dict(name="c09_generic_cycles", entry="internal/zzverif.C09GenericCycle", key_fn=c09_key,
+                               required_sites=("violation-rejected", "error-names-offending-file", "acyclic-generic-use-accepted", "no-panic"), assumptions=C09_GENERIC_ASSUME,
+                               desc="reference cycles (self, 2 records, aliases, record+alias, 3 records) whose closing reference is a type argument of a generic instantiation: "
+                                    "10 carriers (imported generic record / alias / union alias / second parameter, local generic, local alias of an imported generic, nests of both, "
+                                    "compound argument) x {main, imported namespace}: rejected naming the file; the same definitions without the back-reference are accepted")),
+        (G, "gosym_part", dict(name="c09_generic_type_rules", entry="internal/zzverif.C09GenericTypeRule", args_quick=(0,), args_thorough=(1,), key_fn=c09_key,
+                               required_sites=("violation-rejected", "error-names-offending-file", "no-panic"), assumptions=C09_GENERIC_ASSUME,
+                               desc="the 16 type-level rule violations written as (part of) a type argument of the 10 generic carriers x {main, imported namespace} "
+                                    "(thorough: x {record field, alias, protocol step}): the real dsl.Validate returns an error naming the offending file")),
     ],
     "C13": [
         (G, "gosym_part", dict(name="c13_order_and_files", entry="internal/zzverif.C13Order", args_quick=(1,), args_thorough=(0,),
@@ -220,6 +389,27 @@ PARTS = {
                                             "YAML text -> AST (yaml.v3, participle) is outside: models are built at the level dsl.Validate receives them"],
                                desc="real dsl.Validate + schema writer + python serializer emitter on the same symbolic definitions listed in a different order / spread over files: "
                                     "both accepted, identical schema text, identical field plans and serializer expressions, and every definition listed after its dependencies")),
+        (G, "gosym_part", dict(name="c13_order_imported_generics", entry="internal/zzverif.C13ImportedGenerics", args_quick=(0, 1), args_thorough=(1, 2),
+                               required_sites=("reordered-accepted", "reordered-does-not-panic", "same-schema", "dependencies-first", "oracle-sees-through-imported-generics",
+                                               "same-field-plan", "same-python-serializer", "same-step-plan"),
+                               assumptions=["model family: harness c13ImportedDefs: imported namespace Lib (Box<T>, Two<A,B>, Many<T> = T*) and 6 local definitions (Inner<T>, Wrapper<T> using "
+                                            "Inner<T>, Seq<T> = T*n, enum Kind, record User, alias Top) where the local generics are mentioned only inside type arguments of the imported "
+                                            "generics (Lib.Box<Wrapper<p>>, Lib.Many<Seq<Kind>>, Lib.Two<string, Lib.Box<Inner<p>>>, Lib.Two<User, Wrapper<Kind>>); quick: all 120 orders of "
+                                            "the 5 non-enum definitions with the enum first or last, type-argument primitive symbolic; thorough: all 720 orders of the 6 definitions, enum base "
+                                            "symbolic too; vector length symbolic; file layout (one / alternating / other file) derived from the order",
+                                            "YAML text -> AST (yaml.v3, participle) is outside: models are built at the level dsl.Validate receives them"],
+                               desc="real dsl.Validate + schema writer + python serializer emitter on local definitions that depend on each other through type arguments of imported generic "
+                                    "types, listed in every order: accepted in every order, identical schema text / plans / serializer expressions, and every local definition listed "
+                                    "after the local definitions it mentions (also inside type arguments of imported generics)")),
+        (G, "gosym_part", dict(name="c13_comments", entry="internal/zzverif.C13Comments", args_quick=(3, 3), args_thorough=(4, 4),
+                               required_sites=("doc-comment-is-the-attached-block", "detached-comment-blocks-do-not-change-the-doc-comment", "leading-blank-lines-do-not-change-the-doc-comment"),
+                               assumptions=["dsl.normalizeComment applied to yaml.v3's HeadComment is the only way comment text enters the model (yaml.go); yaml.v3 itself is outside",
+                                            "head comment: k <= 3 (4) lines, each blank / '#' / '# text' / '#text', text from a finite domain of 3 (4) strings decided by the solver "
+                                            "(none starts with '#'); 5 fixed detached blocks prepended",
+                                            "specification (docs/*/language.md + the rule that a blank line detaches a comment): the documentation comment is the maximal run of comment "
+                                            "lines directly above the element, each without its '#' and one optional following space, joined by newlines"],
+                               desc="the real dsl.normalizeComment on a symbolic head comment: result equals the independently specified attached block, and prepending detached "
+                                    "comment blocks / blank lines (non-documentation comments, whitespace) never changes it")),
     ],
     "C01": [
         (CC, "c01_cc_kernels", dict()),
@@ -227,6 +417,8 @@ PARTS = {
         (PY, "c01_py_kernels", dict()),
         (PYG, "c01_py_generated", dict()),
         C14_PART,
+        C01_CPP_PROTO_WRITER,
+        C01_CPP_PROTO_READER,
     ],
     "C03": [
         (PY, "c03_py_capacity", dict()),
@@ -242,6 +434,7 @@ PARTS = {
         (CC, "c17_cc_blocks", dict()),
         (CC, "c17_cc_reuse", dict()),
         (PY, "c17_py_batching", dict()),
+        C01_CPP_PROTO_WRITER,   # how a writer's items are batched (incl. empty batches) never shows on the wire except as block boundaries
     ],
     "C15": [
         C04_EMBED_PART,
@@ -265,6 +458,26 @@ PARTS = {
                                assumptions=C11_ASSUME,
                                desc="generateImpl on a package graph where each package is ok / has a parse error / has a validation error (symbolic), evolution may fail, "
                                     "outputs may be disabled, output dirs empty or pre-populated: any error => non-nil error and no write under the output dirs")),
+        (G, "gosym_part", dict(name="c11_versions_2", entry="internal/cmd.VerifC11Versions", args_quick=(2, 2, 3, 1), args_thorough=(2, 2, 7, 1), key_fn=c11_versions_key,
+                               extra_quick=("-replay-sample", "100"), extra_thorough=("-replay-sample", "300"),
+                               required_sites=("duplicate-version-label-fails", "duplicate-version-label-writes-nothing", "incompatible-or-invalid-predecessor-fails",
+                                               "incompatible-or-invalid-predecessor-writes-nothing", "valid-package-succeeds", "valid-package-writes-output", "failure-writes-nothing"),
+                               assumptions=["gosym: LoadPackage, ParsePackageContents (returns the namespaces built by the harness), python.Generate, updatePackageInfoFromArgs are seams; generateImpl, validatePackage, "
+                                            "parse*Namespaces, the real dsl.Validate and the real dsl.ValidateEvolution, outputJson, WriteFileIfNeeded run unmodified",
+                                            "each explored path is replayed natively on real package directories (`versions:` map in _package.yml, model.yml per version) with no seams",
+                                            "which predecessors are incompatible follows docs/cpp/evolution.md (reordered steps, removed step = breaking; added optional field = compatible; int -> string step = partially compatible)"],
+                               desc="generateImpl on a main package with 2 previous versions, each symbolically partially compatible / incompatible (reordered steps) / identical "
+                                    "(thorough: + compatible, removed step, validation error, parse error), version labels symbolic strings out of {v1, v2} (may be equal), output configuration symbolic: "
+                                    "fails and writes nothing iff some predecessor (at any position) is incompatible / invalid or the labels are not pairwise distinct")),
+        (G, "gosym_part", dict(name="c11_versions_3", entry="internal/cmd.VerifC11Versions", args_quick=(3, 3, 2, 0), args_thorough=(3, 3, 5, 0), key_fn=c11_versions_key,
+                               extra_quick=("-replay-sample", "100"), extra_thorough=("-replay-sample", "300", "-max-paths", "100000"),
+                               required_sites=("duplicate-version-label-fails", "duplicate-version-label-writes-nothing", "incompatible-or-invalid-predecessor-fails",
+                                               "incompatible-or-invalid-predecessor-writes-nothing", "valid-package-succeeds", "valid-package-writes-output", "failure-writes-nothing"),
+                               assumptions=["gosym: LoadPackage, ParsePackageContents (returns the namespaces built by the harness), python.Generate, updatePackageInfoFromArgs are seams; generateImpl, validatePackage, "
+                                            "parse*Namespaces, the real dsl.Validate and the real dsl.ValidateEvolution, outputJson, WriteFileIfNeeded run unmodified",
+                                            "each explored path is replayed natively on real package directories (`versions:` map in _package.yml, model.yml per version) with no seams",
+                                            "which predecessors are incompatible follows docs/cpp/evolution.md (reordered steps, removed step = breaking; added optional field = compatible; int -> string step = partially compatible)"],
+                               desc="same with 3 previous versions, labels out of {v1, v2, v3}, every subset of incompatible predecessors, python + json outputs enabled")),
     ],
     "C02": [
         (PY, "c02_py_converters", dict()),
@@ -275,22 +488,34 @@ PARTS = {
                                desc="ndjsoncommon.GetJsonDataType + python/ndjson.typeConverter + cpp/ndjson.writeUnionConverters on a symbolic union "
                                     "(args: number of cases, leading null): a union is written untagged iff the documented JSON kinds of its cases are pairwise disjoint, and both generators agree",
                                assumptions=["JSON kind table transcribed from docs/reference/ndjson.md (harness specKinds)",
-                                            "union cases range over: all primitives, enum, flags, record, alias of 4 primitives, vector, fixed vector, arrays (dynamic / rank-only / fixed / rank 0), maps with string or int key"])),
+                                            "union cases range over: all primitives, enum, flags, record, alias of 4 primitives, vector, fixed vector, arrays (dynamic / rank-only / fixed / rank 0), maps keyed by any of the 18 primitives or by an alias of string / date",
+                                            "documented map rule (object only for string keys, else array of pairs) is checked against the real Python MapConverter by c02_py_converters (conv.map-kind==object-iff-string-key)"])),
         (G, "gosym_part", dict(name="c02_union_tagging_3", entry="internal/zzverif.C02Union", args_quick=(3, 0, 1), args_thorough=(3, 1, 1), key_fn=c02_key,
                                required_sites=("cpp-python-agree", "python-untagged-only-if-unambiguous", "python-tagged-only-if-ambiguous"),
-                               desc="same obligations on 3-case unions over a reduced case vocabulary (4 primitives, record, vector, enum)",
+                               desc="same obligations on 3-case unions over a reduced case vocabulary (4 primitives, record, vector, enum, map keyed by string / int32 / date)",
                                assumptions=["JSON kind table transcribed from docs/reference/ndjson.md (harness specKinds)"])),
+        (G, "gosym_part", dict(name="c02_cpp_flags_converters", entry="internal/zzverif.C02CppFlags", args_quick=(3, 5, 2), args_thorough=(3, 8, 4),
+                               extra_quick=("-max-paths", "100000"), extra_thorough=("-max-paths", "1000000"),
+                               required_sites=("only-known-statement-forms", "round-trip", "integer-form-is-the-underlying-value", "array-lists-flags-that-are-set",
+                                               "array-covers-the-whole-value", "combination-of-defined-flags-is-an-array", "from-json-integer-is-the-value"),
+                               assumptions=C02_CPP_ENUM_ASSUME,
+                               desc="cpp/ndjson.writeEnumValuesMap + writeFlagsConverters on a !flags definition accepted by the real dsl.Validate (args: number of flags, value "
+                                    "vocabulary, base types): flag values are distinct symbolic choices in any order from {1,2,0,3,6,128,4,5} (zero-valued and overlapping flags "
+                                    "included), v is any value of the base type (symbolic bit-vector): the emitted to_json evaluated on v gives either the integer v or an array of "
+                                    "distinct defined symbols, each set in v, whose union is v (so a value with an undefined bit is the integer v); for flags without shared bits "
+                                    "every combination is an array; the emitted from_json evaluated on that JSON gives v back; from_json of a bare integer is that integer")),
+        (G, "gosym_part", dict(name="c02_cpp_enum_converters", entry="internal/zzverif.C02CppEnum", args_quick=(2, 4, 3), args_thorough=(3, 6, 4),
+                               required_sites=("only-known-statement-forms", "round-trip", "defined-value-is-its-symbol", "undefined-value-is-the-integer",
+                                               "from-json-symbol-is-its-value", "from-json-integer-is-the-value"),
+                               assumptions=C02_CPP_ENUM_ASSUME,
+                               desc="cpp/ndjson.writeEnumValuesMap + writeEnumConverters on an !enum definition (values distinct symbolic choices from {0,1,5,-1,127,2}, symbolic base "
+                                    "type; definitions the real dsl.Validate rejects are skipped): to_json(v) is the symbol string iff v is a defined value, else the integer v; "
+                                    "from_json inverts it; from_json of every symbol / of a bare integer")),
     ],
     "C18": [
-        (G, "gosym_part", dict(name="c18_graph", entry="pkg/packaging.VerifC18Graph", args_quick=(3, 2), args_thorough=(3, 3),
-                               extra_quick=("-max-paths", "100000"), extra_thorough=("-max-paths", "2000000"),
-                               required_sites=("terminates-without-panic", "cycle-or-conflict-rejected", "acyclic-accepted", "each-reachable-once"),
-                               assumptions=C18_ASSUME,
-                               desc="LoadPackage on every import multigraph over n packages (args: n, max out-degree) with symbolic namespaces: "
-                                    "cycle or namespace conflict among reachable packages => error; otherwise success, each reachable package once, every import resolved")),
-        (G, "gosym_part", dict(name="c18_dag", entry="pkg/packaging.VerifC18Dag", args_quick=(4,), args_thorough=(5,),
-                               required_sites=("cycle-or-conflict-rejected", "acyclic-accepted", "shared-package-loaded-once"), assumptions=C18_ASSUME,
-                               desc="DAGs over n packages with both list orders, one optional arbitrary extra edge and a symbolic namespace on the last package")),
+        C18_GRAPH_PART,
+        C18_DAG_PART,
+        C18_NS_PART,
         (G, "gosym_part", dict(name="c18_depth", entry="pkg/packaging.VerifC18Depth", args_quick=(12,), args_thorough=(13,),
                                required_sites=("too-deep-rejected",), assumptions=C18_ASSUME, key_fn=c18_key,
                                desc="chain of k packages (real MaxImportRecursionDepth) with an optional shortcut import to a symbolic position listed first or last")),
@@ -311,6 +536,19 @@ PARTS = {
                                required_sites=("untouched-iff-identical", "created-when-missing", "final-content"),
                                desc="iocommon.WriteFileIfNeeded on symbolic old/new contents (SMT strings): a write happens iff contents differ or the file is missing",
                                assumptions=["os.ReadFile/WriteFile modelled by the virtual file system in env_intrinsics.go"])),
+        (G, "gosym_part", dict(name="c12_map_order", entry="internal/zzverif.C12MapOrder", args_quick=(2, 4, 56, 8, 2), args_thorough=(3, 5, 160, 16, 3),
+                               extra_quick=("-max-paths", "100000"), extra_thorough=("-max-paths", "1000000"),
+                               required_sites=("reference-run-succeeds", "run-succeeds-in-every-map-order", "every-map-range-covered", "output-independent-of-map-iteration-order"),
+                               assumptions=["gosym iterates a Go map in insertion order unless told otherwise; verifSetMapOrder(-2-i) makes the order of the i-th executed range of a map "
+                                            "with >= 2 entries a decision (all permutations up to 3 entries; identity / reversal / rotation above), one range per path, every index covered "
+                                            "(every-map-range-covered); orders of two ranges are not varied together",
+                                            "native replay cannot select a map order: Go randomises it; a dependence reported by gosym is confirmed natively by repeating the run (up to 32 times) until Go's own "
+                                            "order shows a differing file; paths on which gosym found identical output carry that finding as a recorded input (verifRecord)",
+                                            "model: protocol P (stream of a record that gained an optional field, a number step, two unions of different arity) and protocol Q, "
+                                            "2 (thorough 3) previous versions with symbolic per-version change kinds; file system virtual under gosym"],
+                               desc="real dsl.ValidateEvolution + one real generator writing its files (args: versions, generators among cpp/binary.WriteBinary, cpp/types.WriteTypes, "
+                                    "cpp/protocols.WriteProtocols, cpp/ndjson.WriteNdJson, python.Generate, range-index bounds, change kinds) run once in insertion order and once with one "
+                                    "(symbolically chosen) map range of the evolution pass or the generator iterating in a different order: every generated file is byte-identical")),
     ],
     "C06": [
         (G, "gosym_part", dict(name="c06_env_edit_classes", entry="internal/zzverif.C06Env", key_fn=c06_key,
@@ -321,6 +559,27 @@ PARTS = {
                                             "optionally the record also occurs as map value or array element"],
                                desc="real dsl.Validate on old and new = edit(old), then real ValidateEvolution: verdict class (silent / warning / error) equals the documented class for "
                                     "27 edit kinds, alone and combined with a compatible change of the record they refer to; number pair and vector lengths symbolic")),
+        (G, "gosym_part", dict(name="c06_reference_shapes", entry="internal/zzverif.C06RefShape", args_quick=(0, 0), args_thorough=(1, 0), key_fn=c06_key,
+                               extra_thorough=("-max-paths", "100000"),
+                               required_sites=("verdict-without-panic", "breaking-change-rejected", "partial-change-accepted", "partial-change-warned",
+                                               "compatible-change-accepted", "compatible-change-silent"),
+                               assumptions=["oracle from docs/cpp/evolution.md: adding or removing aliases is compatible, changing the type arguments to a generic type is breaking, "
+                                            "the class of an edit of a record / enum definition does not depend on how the definition is referenced",
+                                            "second harness argument strict=0: the class is not asserted when both versions reach the generic through differently named closed aliases "
+                                            "and the type argument changed / was edited (reported defect of the unchanged tree; strict=1 asserts it)"],
+                               desc="real Validate + ValidateEvolution where old and new independently reach the target (generic record G<prim>, G<R>, record R, enum E) through a direct reference, "
+                                    "a closed alias, an alias of an alias, a generic alias with explicit type arguments or a closed alias of a generic alias, aliases defined only where needed or "
+                                    "everywhere: verdict class = documented class of (type-argument change | record edit | enum edit), independent of the reference shapes; "
+                                    "quick = shapes x arguments x alias sets and shapes x edits x {plain, stream}; thorough = full cross product with vector / optional wrappers")),
+        (G, "gosym_part", dict(name="c06_union_positions", entry="internal/zzverif.C06UnionPos", args_quick=(2, 1, 0), args_thorough=(2, 4, 1), key_fn=c06_key,
+                               extra_thorough=("-max-paths", "100000"),
+                               required_sites=("verdict-without-panic", "partial-change-accepted", "partial-change-warned", "compatible-change-accepted", "compatible-change-silent"),
+                               assumptions=["oracle from docs/cpp/evolution.md (making a field optional; optional <-> union; adding or removing union types; the example T -> [.., T, ..]; "
+                                            "changing between primitive types): none of them mentions case positions; pairs the documentation does not classify "
+                                            "(reorder only, null added / removed, disjoint case sets, union -> scalar, optional -> scalar) are run for totality only (thorough tier)"],
+                               desc="real Validate + ValidateEvolution on old, new = `null`? + an ordered selection of 1-3 distinct case types out of a pool of three "
+                                    "({int32, string, float32} or {int32, string, Rec} with Rec gaining an optional field), as a step type (thorough: also record field, stream item, alias): "
+                                    "the verdict class equals the documented class wherever the matching case sits (first / middle / last) on either side")),
         (G, "gosym_part", dict(name="c06_reflexive", entry="internal/zzverif.C06Reflexive", args_quick=(1, 1), args_thorough=(2, 1),
                                required_sites=("reflexive", "total"), assumptions=C06_ASSUME,
                                desc="compareTypes(clone(T), T) reports no change and does not panic, T symbolic (depth, full-primitive leaves)")),
@@ -329,6 +588,33 @@ PARTS = {
                                assumptions=C06_ASSUME,
                                desc="compareTypes on two independent symbolic types: total in both directions; nil => identical wire plan; "
                                     "nil-ness and error-ness symmetric; accepted-but-changed => non-empty warning")),
+    ],
+    "C20": [
+        (G, "gosym_part", dict(name="c20_sequential", entry="internal/cmd.VerifC20", args_quick=(2, 0, 0), args_thorough=(3, 0, 0),
+                               extra_quick=("-replay-sample", "6"), extra_thorough=("-replay-sample", "10"),
+                               required_sites=("converged-to-one-shot-output", "invalid-final-contents-leave-output-untouched", "watcher-keeps-running"),
+                               assumptions=C20_ASSUME,
+                               desc="the real dedupLoop with a patient editor (waits for the watcher to go idle between saves; args: saves, impatient=0, preemptions=0): every sequence "
+                                    "of saves over {3 valid contents, 1 invalid}; validates the seams natively against a real fsnotify watcher")),
+        (G, "gosym_part", dict(name="c20_interleaved", entry="internal/cmd.VerifC20", args_quick=(2, 1, 1), args_thorough=(2, 1, 2),
+                               extra_quick=("-replay-sample", "4", "-max-paths", "200000"), extra_thorough=("-replay-sample", "8", "-max-paths", "3000000"),
+                               required_sites=("converged-to-one-shot-output", "invalid-final-contents-leave-output-untouched", "watcher-keeps-running"),
+                               assumptions=C20_ASSUME,
+                               desc="the same with an impatient editor: every interleaving of editor, debounce-timer firings and in-flight regenerations at channel / timer / mutex / "
+                                    "file-system operations within the preemption bound (args: saves, impatient=1, preemptions); after quiescence the output equals a one-shot generateImpl "
+                                    "on the final contents and no goroutine has crashed")),
+        (G, "gosym_part", dict(name="c20_import_sequential", entry="internal/cmd.VerifC20Import", args_quick=(0, 0), args_thorough=(0, 0),
+                               extra_quick=("-replay-sample", "4"), extra_thorough=("-replay-sample", "8"),
+                               required_sites=("converged-to-one-shot-output", "cwd-is-package-dir-when-idle", "watcher-keeps-running"),
+                               assumptions=C20_ASSUME + ["import scenario: readPackageInfo's YAML decoding is replaced by a token reader of the same file; LoadPackage, collectPackages and "
+                                                         "fetchAndCachePackages (os.Chdir/Getwd on the virtual file system, net/url.Parse through the native parser on concrete URLs) are real"],
+                               desc="package importing ../dep; the editor breaks dep's manifest (an import that cannot be fetched: unsupported scheme or missing directory), repairs it and "
+                                    "changes the model, waiting for the watcher to go idle each time: watcher survives, process cwd is the package directory whenever idle, final output = one-shot output")),
+        (G, "gosym_part", dict(name="c20_import_interleaved", entry="internal/cmd.VerifC20Import", args_quick=(1, 1), args_thorough=(1, 2),
+                               extra_quick=("-replay-sample", "2", "-max-paths", "200000"), extra_thorough=("-replay-sample", "4", "-max-paths", "3000000"),
+                               required_sites=("converged-to-one-shot-output", "cwd-is-package-dir-when-idle", "watcher-keeps-running"),
+                               assumptions=C20_ASSUME,
+                               desc="the same three saves without waiting: every interleaving within the preemption bound", tiers=("thorough",))),
     ],
     "C14": [
         (G, "gosym_part", dict(name="c14_type_plans", entry="internal/zzverif.C14Type", args_quick=(1, 1), args_thorough=(2, 1),
@@ -340,18 +626,32 @@ PARTS = {
                                assumptions=["head tables in harness/go/internal/zzverif/zz_plan.go give the meaning of each runtime entry point",
                                             "type shapes limited to the generator in zz_gen.go (depth bound; union = 2 cases (+null); records 1-2 fields; one generic parameter)"])),
         C02_UNION3_PART,   # Python NDJSON is one of the backends: same tagged/untagged decision as C++ and as the documented JSON kinds
+        (G, "gosym_part", dict(name="c14_union_classes", entry="internal/zzverif.C14UnionClass", args_quick=(3,), args_thorough=(3,),
+                               required_sites=("matlab-union-tag-byte-is-schema-position", "matlab-union-is-method-agrees-with-factory", "matlab-union-tag-list-agrees-with-factory",
+                                               "matlab-union-one-factory-per-non-null-case", "matlab-union-reader-factory-is-the-case's",
+                                               "python-union-tag-byte-is-schema-position", "python-union-case-tag-is-the-schema-tag", "python-union-reader-case-class-is-the-case's"),
+                               desc="matlab/types.writeUnionClass and python/types.writeUnionClass on a union of 2-3 cases (5 case-type shapes) generated from the nullable or the non-nullable "
+                                    "occurrence, read back (factory `res = Cls(k, value)`, isTag `self.index == k`, tags_ list; Python `{\"index\": k, \"tag\": t}`) and combined with the "
+                                    "UnionSerializer expression emitted for the nullable or non-nullable occurrence: the tag byte the runtime writes for each case (MATLAB index + offset - 1, "
+                                    "Python index + offset) equals the case's position in the schema, and factory / isTag / tag list agree",
+                               assumptions=["runtime tag-byte rule transcribed from static_files/+binary/UnionSerializer.m and _binary.UnionSerializer (harness zz_c14_unionclass.go)",
+                                            "null only as the first case (validation rejects any other position); case types concrete alternatives; tags concrete"])),
     ],
 }
 
 HOOK_COMMITS = []
 NOTES = ("Every claim is bounded: 'holds' means unsat within the stated bound. Exit 3 + INCONCLUSIVE lines mean the solver or the "
          "encoder could not decide; that is never reported as success. See DESIGN.md.")
-NOT_APPLICABLE = {
-    "C20": "watch mode is about interleavings of timer goroutines, fsnotify events and the process-global cwd; the gosym executor is sequential (no goroutines/channels/select/timers), "
-           "so the real dedupLoop/generateInWatchMode cannot be executed symbolically and an event-interleaving abstraction would decide a model, not the code (DESIGN I.6)",
-}
+NOT_APPLICABLE = {}
 
 CLAIMS = {
+    "C20": dict(text="Bounded symbolic execution (gosym with a cooperative goroutine scheduler whose switches are path decisions) of the real dedupLoop, generateInWatchMode, generateImpl, "
+                     "validatePackage, dsl.Validate, outputJson and WriteFileIfNeeded: for every sequence of 2 (3) saves over valid and invalid model contents and every interleaving of the "
+                     "editor, debounce-timer firings and in-flight regenerations within the preemption bound, once everything is quiescent the output file equals what a one-shot generateImpl "
+                     "produces for the final contents, invalid final contents leave the output untouched, and no regeneration goroutine has crashed. The unguarded overlap of regenerations "
+                     "(a slow one overwriting the output of a newer one) was found this way, confirmed natively against the real watcher, and repaired (fix: 32002f5).",
+                note="Bounded: 2 saves x 1 preemption (quick), 2 preemptions / 3 saves (thorough); single package, JSON target; koanf config sharing and the process cwd across imported "
+                     "packages are behind stubs; native confirmation relies on timing (bulky model), not on an imposed schedule."),
     "C08": dict(text="Bounded symbolic execution (gosym) of the complete real Python generator for a two-namespace model under every generateNDJson / has-protocols combination: "
                      "no panic, and the generated package is self-consistent (every own-package module an __init__.py imports was written). Panic-freedom of the type-mapping layers "
                      "on all type shapes is additionally exercised by the C14 part.",
